@@ -28,8 +28,20 @@ def app_canon(path, targs):
     return None
 
 
-def mk_session(F, expand=True):
-    S = Session(F, app_canon=app_canon, positive=("wp.x", "wp.y", "wp.z"))
+def app_canon_m(path, targs):
+    """As app_canon, but the component type's `Stimulus::max_intensity()` stays a free positive symbol M: the component type of most colour
+    types may be an integer (M = 255, 65535, ...), where `One::one()` or a literal 1 is NOT the maximum."""
+    r = app_canon(path, targs)
+    return "M" if r == ("num", 1) else r
+
+
+def app_canon_255(path, targs):
+    r = app_canon(path, targs)
+    return ("num", 255) if r == ("num", 1) else r
+
+
+def mk_session(F, expand=True, symbolic_max=False):
+    S = Session(F, app_canon={False: app_canon, True: app_canon_m, 255: app_canon_255}[symbolic_max], positive=("wp.x", "wp.y", "wp.z", "M"))
     S.ctx.expand_minmax = expand
     return S
 
@@ -104,10 +116,14 @@ def run(F, rep, tier="quick", extra=None, only=None):
     ca = self_types(F, "ClampAssign")
     types = sorted(set(wb) | set(cl) | set(ca))
     n_types = 0
+    S_one, S_m, S_255 = S, mk_session(F, symbolic_max=True), mk_session(F, symbolic_max=255)
+    rep.assumptions.append("for the HWB forms (float-only: the renormalisation divides) max_intensity() = 1; for every other type it is a free positive symbol M, "
+                           "so the laws hold for integer components too and a bound written as `one()` or a literal instead of max_intensity() is a violation")
     for adt in types:
         key = adt.split("::")[-1]
         if key in ("Alpha", "PreAlpha"):
             continue
+        S = S_one if adt in HWB_TYPES else S_m
         if adt not in wb or adt not in cl or adt not in ca:
             rep.fail("BOUNDS", "triple:" + key, "type implements only a part of {IsWithinBounds, Clamp, ClampAssign}: %s" % [t for t, d in (("IsWithinBounds", wb), ("Clamp", cl), ("ClampAssign", ca)) if adt in d])
             continue
@@ -144,8 +160,13 @@ def run(F, rep, tier="quick", extra=None, only=None):
             check_value(rep, "BOUNDS-LAW", "clamp-idempotent:" + key, S, b_cl, VV, V, sample="clamp(clamp(c)) = clamp(c)")
         except (Opaque, poly.TooBig) as ex:
             rep.fail("BOUNDS-LAW", "laws:" + key, "uninterpretable: %s" % ex, loc)
-        # L5: thresholds = public accessors
-        check_accessors(F, rep, S, adt, key, B, b_wb)
+        # L5: thresholds = public accessors, decided at max_intensity() = 1 (floats) and = 255 (u8): a bound written with `one()` or a literal
+        # where the accessor says max_intensity() (or the reverse) agrees at 1 and differs at 255
+        try:
+            check_accessors(F, rep, S_one, adt, key, S_one.ev.eval_body(b_wb, [S_one.args(b_wb, ["c"])[0]])[0], b_wb)
+            check_accessors(F, rep, S_255, adt, key + "@max_intensity=255", S_255.ev.eval_body(b_wb, [S_255.args(b_wb, ["c"])[0]])[0], b_wb)
+        except (Opaque, poly.TooBig) as ex:
+            rep.fail("BOUNDS-ACC", "bounds=accessors:" + key, "uninterpretable: %s" % ex, loc)
     rep.floor("bounded colour types", n_types, 26)
 
     check_blankets(F, rep)
@@ -183,7 +204,7 @@ def check_accessors(F, rep, S, adt, key, B, b_wb):
         if vals is None:
             continue
         # documented slack: Okhsv accepts max + MAX_SRGB_SATURATION_INACCURACY (same constant on both sides, checked by L2)
-        slack = Fr(1, 10 ** 6) if key == "Okhsv" else 0
+        slack = Fr(1, 10 ** 6) if key.startswith("Okhsv") else 0
         ok = all(any(abs(t - v) <= slack for v in vals) for t in ts)
         rep.ob("BOUNDS-ACC", "bounds=accessors:%s.%s" % (key, fld), ok, "thresholds %s vs min/max accessors %s" % (sorted(map(str, ts)), sorted(map(str, vals))), F.loc(b_wb))
 
@@ -241,6 +262,22 @@ def check_blankets(F, rep):
             rep.ob("BOUNDS-COMP", "try_from_color", ok, "in bounds ⇒ Ok(unclamped), else Err(OutOfBounds{color: unclamped}): " + detail[:300], F.loc(b))
         except Opaque as ex:
             rep.fail("BOUNDS-COMP", "try_from_color", str(ex), F.loc(b))
+    # containers: Vec<U> / Box<[U]> : FromColor maps every element with the CLAMPING conversion (the unclamped twin lives in the other module)
+    from .c13 import callees
+    n_cont = 0
+    for tr, fn, other in (("convert::from_into_color::FromColor", "from_color", "from_color_unclamped"),):
+        for im, ms in impl_methods(F, tr):
+            sname = im["self_s"]
+            if not sname.startswith(("std::vec::Vec<", "std::boxed::Box<[")):
+                continue
+            b = ms.get(fn)
+            if b is None:
+                continue
+            n_cont += 1
+            convs = [p_.split("::")[-1] for p_, a, nn, pp in callees(F, b) if re.search(r"::(from|into)_color(_unclamped)?$", p_)]
+            rep.ob("BOUNDS-COMP", "container:%s[%s]" % (fn, sname), convs == [fn],
+                   "elements are converted with %s (expected exactly the clamping %s; %s would leave out-of-range components in a FromColor result)" % (convs, fn, other), F.loc(b))
+    rep.floor("container FromColor impls", n_cont, 2)
     # OutOfBounds::color is a projection
     for b in F.find_bodies(name="color", path_contains="OutOfBounds"):
         try:
@@ -276,6 +313,25 @@ def check_blankets(F, rep):
                 rep.ob("BOUNDS-ALPHA", "alpha:" + m, ok, repr(v)[:300], F.loc(b))
         except (Opaque, KeyError, AttributeError) as ex:
             rep.fail("BOUNDS-ALPHA", "alpha:" + m, "uninterpretable: %s" % ex, F.loc(b))
+        # the alpha type is any Stimulus, integers included: its upper bound is `max_intensity()` (255 for u8), which equals `one()` only for
+        # floats.  Re-evaluate with max_intensity as a free positive symbol M and require clamp(alpha, 0, M) / a test against M.
+        try:
+            S3 = Session(F, app_canon=lambda path, targs: "M" if path.endswith("stimulus::Stimulus::max_intensity") else None, positive=("M",))
+            S3.ctx.expand_minmax = True
+            args = S3.args(b, ["c"])
+            v, fr = S3.ev.eval_body(b, args)
+            if m == "clamp_assign":
+                v = S3.final_self(fr)
+            M = S3.ev.uninterpreted("M", [])
+            al = args[0].fields["alpha"]
+            if m != "is_within_bounds":
+                mm = alg.compare(v.fields["alpha"], S3.R.clamp(al, 0, M), S3.ctx)
+                rep.ob("BOUNDS-ALPHA", "alpha-max:" + m, not mm, "alpha = clamp(alpha, 0, Stimulus::max_intensity()) for every Stimulus, integer alpha included"
+                       + ((": " + "; ".join(str(x) for x in mm[:2])) if mm else ""), F.loc(b))
+            else:
+                rep.ob("BOUNDS-ALPHA", "alpha-max:" + m, "M" in atoms_of(v), "the upper alpha test is against Stimulus::max_intensity(): %s" % alg._short(v, 160), F.loc(b))
+        except (Opaque, KeyError, AttributeError) as ex:
+            rep.fail("BOUNDS-ALPHA", "alpha-max:" + m, "uninterpretable: %s" % ex, F.loc(b))
 
 
 # ------------------------------------------------------------------------------------ BOUNDS-APPLY (compiler-decided witness)
